@@ -20,6 +20,9 @@ from . import libops
 
 PROP = 'C14'
 LEVEL = 'exploration'
+COMPONENTS = {
+    'real': ['GroupLibrary.Load, GroupAdditivityScheme.Load, DataDir.get_data_dir', 'every shipped YAML file (read once from the real tree)', 'RDKit', 'PyYAML', 'numpy', 'scipy'],
+    'stubs': ['file system: SimFS holding the shipped tree at the bundled place and/or relocated', 'environment (simulated getenv)', 'current directory', 'process restart = one forked child per process lifetime', 'real-file-system tier: no stubs (scratch copy, new interpreters, real pgradd_DATA_DIR)']}
 ASSUMPTIONS = [
     'process restart = fork of a worker that has never resolved the data '
     'directory (validated against genuinely new interpreters with the real '
